@@ -105,6 +105,25 @@ func runClockCase(kind string, hSec, conns int) Sx {
 		v.Push(clockFrame(peer, us, typ, peerSeq, extra))
 		peerSeq++
 	}
+	// scheduling jitter probe: a goroutine that sleeps 20 ms at a time and records by how much it overslept at worst. On a
+	// heavily loaded machine the timer goroutines are late by as much; the case is then not judged (see s_clock.ml).
+	var maxLate int64
+	probeStop := make(chan struct{})
+	go func() {
+		for {
+			select {
+			case <-probeStop:
+				return
+			default:
+			}
+			t := time.Now()
+			time.Sleep(20 * time.Millisecond)
+			if late := int64(time.Since(t)/time.Millisecond) - 20; late > atomic.LoadInt64(&maxLate) {
+				atomic.StoreInt64(&maxLate, late)
+			}
+		}
+	}()
+	defer close(probeStop)
 	obs := List{}
 	for k := 0; k < conns; k++ {
 		out, err := v.Connect()
@@ -245,7 +264,7 @@ func runClockCase(kind string, hSec, conns int) Sx {
 	}
 	tlMu.Lock()
 	defer tlMu.Unlock()
-	return append(obs, append(List{Sym("timeline")}, timeline...))
+	return append(obs, append(List{Sym("timeline")}, timeline...), L(Sym("jitter"), Int(int(atomic.LoadInt64(&maxLate)))))
 }
 
 func runClock(in Sx) Sx {
